@@ -272,7 +272,6 @@ def ob_eviction(m: int, n: int, o0: int, o1: int, o2: int, o3: int, o4: int, o5:
     pre: 0 <= m <= 2 and 1 <= n <= EV_N
     pre: 0 <= o0 <= 5 and 0 <= o1 <= 5 and 0 <= o2 <= 5 and 0 <= o3 <= 5 and 0 <= o4 <= 5 and 0 <= o5 <= 5
     pre: (n > 1 or o1 == 0) and (n > 2 or o2 == 0) and (n > 3 or o3 == 0) and (n > 4 or o4 == 0) and (n > 5 or o5 == 0)
-    pre: not (_dup_terminal(2, n, [o0, o1, o2, o3, o4, o5]))
     post: _
     """
     return _eviction_script(2, m, n, [o0, o1, o2, o3, o4, o5][:EV_N])
@@ -291,7 +290,6 @@ def ob_eviction3(m: int, n: int, o0: int, o1: int, o2: int, o3: int) -> bool:
     pre: 0 <= o0 <= 8 and 0 <= o1 <= 8 and 0 <= o2 <= 8 and 0 <= o3 <= 8
     pre: (n > 1 or o1 == 0) and (n > 2 or o2 == 0) and (n > 3 or o3 == 0)
     pre: o0 % 3 == 0
-    pre: not (_dup_terminal(3, n, [o0, o1, o2, o3]))
     post: _
     """
     return _eviction_script(3, m, n, [o0, o1, o2, o3][:EV3_N])
